@@ -36,7 +36,9 @@ func check(args []string) (code int) {
 	tier := fs.String("tier", "quick", "quick|thorough")
 	repo := fs.String("repo", "/repo", "repository root")
 	verif := fs.String("verif", "/verif", "verif root")
+	overlay := fs.String("overlay", os.Getenv("VERIF_OVERLAY"), "go build -overlay JSON file (self-test variants)")
 	fs.Parse(args)
+	load.OverlayJSON = *overlay
 	ck := rules.Get(*prop)
 	if ck == nil {
 		fmt.Printf("checker broken: no check registered for %q\n", *prop)
